@@ -50,7 +50,8 @@ META = {
                     'that the emitted text decodes to exactly that double and stays a REAL literal is checked on the real code for every case '
                     '(token stream: text -> float == constant; oracle: row selection on SQLite and the reference evaluator), not proved; '
                     'inf / nan constants are not generated (repr gives inf / nan, which no dialect accepts)',
-                    '`IntCol == <float>` / `!=` is kept out of the generated streams and probed separately (the constant is truncated by IntCol.from_python)'],
+                    '`IntCol == <float>` / `!=`: a whole-number float is normalised to its int, a fractional one is refused (Invalid) — modelled by `coerce`, '
+                    'theorem C03_coerce_keeps_meaning under WholeOk (the whole-number literal compares like its integer; the harness checks float(int) == constant)'],
     'exhaustive': False,
 }
 
@@ -116,11 +117,16 @@ def is_num(t):
 def ser(t):
     k = t[0]
     if k == 'c':
-        return 'c%d' % t[1]
+        return ('r%d' if t[1] == 2 else 'c%d') % t[1]
     if k == 'k':
         return 'k%d' % t[1]
     if k == 'f':
-        return '%s%d' % ('F' if t[1] < 0 else 'f', FID[abs(t[1])])
+        m = abs(t[1])
+        if m == int(m):
+            # a whole-number float: the model is told which whole number (checked here: float(int) is the constant)
+            assert float(int(m)) == m
+            return '%s%d:%d' % ('W' if t[1] < 0 else 'w', FID[m], int(m))
+        return '%s%d' % ('F' if t[1] < 0 else 'f', FID[m])
     if k == 'ar' or k == 'cmp':
         return '%s %s %s %s' % (k, t[1], ser(t[2]), ser(t[3]))
     if k in ('neg', 'pos', 'b2i', 'not~', 'NOT', 'isnull', 'isnotnull', 'eqnone', 'nenone'):
@@ -639,7 +645,11 @@ def oracle(t, res, text_level=True):
     e = env()
     fails = []
     if 'build_error' in res:
+        if res['build_error'] == 'Invalid' and refused(t):
+            return []       # a refusal of a constant the column cannot hold is an allowed outcome; nothing is selected wrongly
         return [('build-error', 'constructing the expression raised %s' % res['build_error'])]
+    if refused(t):
+        fails.append(('not-refused', 'IntCol ==/!= a float with a fractional part was accepted: %s' % res['texts'].get('sqlite')))
     try:
         want = [(rid, ev(t, (a, b, f))) for rid, a, b, f in e['rows']]
     except Overflow:
@@ -703,20 +713,19 @@ def has_float(t):
     return False
 
 
-def sanitize(t):
-    """`IntCol == <float>` / `!=` passes the float through IntCol's from_python, which truncates it to an int
-    (see the directed probe `intcol-eq-float` in run()); that one shape is kept out of the generated streams."""
+def refused(t):
+    """the tree contains `IntCol ==/!= <float with a fractional part>` (either way round): IntCol's validator
+    refuses the constant (formencode Invalid) when the expression is constructed"""
     if isinstance(t, list):
-        return [sanitize(x) for x in t]
+        return any(refused(x) for x in t)
     if not isinstance(t, tuple):
-        return t
-    t = tuple(sanitize(x) for x in t)
+        return False
     if t[0] == 'cmp' and t[1] in ('eq', 'ne'):
         l, r = t[2], t[3]
         for x, y in ((l, r), (r, l)):
-            if x[0] == 'c' and x[1] in (0, 1) and y[0] == 'f':
-                return ('cmp', 'le' if t[1] == 'eq' else 'gt', l, r)
-    return t
+            if x[0] == 'c' and x[1] in (0, 1) and y[0] == 'f' and y[1] != int(y[1]):
+                return True
+    return any(refused(x) for x in t[1:])
 
 
 def num_depth1():
@@ -967,7 +976,6 @@ def gen_cases(ctx):
     nrand = ctx.budget(9000, 150000)
     for _ in range(nrand):
         cases.append(rnd_bool(rng, rng.choice([2, 3, 3, 4, 4, 5, 6])))
-    cases = cases[:n_corpus] + [sanitize(t) for t in cases[n_corpus:]]
     return cases, n_corpus
 
 
@@ -1026,7 +1034,7 @@ def shrink(t, budget=400):
             budget -= 1
             if budget <= 0:
                 break
-            if size(cand) < size(best) and sanitize(cand) == cand and oracle(cand, run_impl(cand)):
+            if size(cand) < size(best) and oracle(cand, run_impl(cand)):
                 best = cand
                 progress = True
                 break
@@ -1067,6 +1075,11 @@ def run(ctx):
                 reported.add(key)
                 ctx.oracle_fail(key, text, {'tree': to_json(small), 'ser': ser(small)})
         if outs is not None:
+            impl_outcome = 'rejected' if res.get('build_error') == 'Invalid' else ('error:%s' % res['build_error'] if 'build_error' in res else 'built')
+            model_outcome = 'rejected' if outs[idx + 1] == 'rejected' else 'built'
+            ctx.compare('constructor outcome: model coerce = real constructors', {'tree': s}, model_outcome, impl_outcome)
+            if model_outcome != 'built' or impl_outcome != 'built':
+                continue
             ans = outs[idx + 1].split(' | ')
             if len(ans) != 4:
                 ctx.compare('driver answer well-formed', {'tree': s}, outs[idx + 1], '<4 fields>')
@@ -1102,7 +1115,7 @@ def run(ctx):
     # INSubquery does not parenthesise its left operand; with SQL's own precedences the text still means the tree.
     nsub = ctx.budget(600, 10000)
     for i in range(nsub):
-        t = sanitize(rnd_bool_sub(ctx.rng, ctx.rng.choice([1, 2, 3, 4])))
+        t = rnd_bool_sub(ctx.rng, ctx.rng.choice([1, 2, 3, 4]))
         if not has_sub(t):
             continue
         s = ser(t)
@@ -1118,19 +1131,6 @@ def run(ctx):
             if key not in reported:
                 reported.add(key)
                 ctx.oracle_fail(key, text, {'tree': to_json(t), 'ser': s})
-    # directed probe: `IntCol == <non-integral float>` — SQLObjectField.__eq__ passes the constant through
-    # IntCol's from_python, which truncates it (0.5 -> 0): the filter selects the rows with a = 0
-    w = ('cmp', 'eq', ('c', 0), ('f', 0.5))
-    wres = run_impl(w)
-    wfails = oracle(w, wres)
-    key = 'C03:intcol-eq-float-truncated'
-    if wfails:
-        text = ('Cls.q.a == 0.5 (a: IntCol) renders %s and selects ids %s; the tree selects none (IntValidator.from_python '
-                'applies int() to the float)' % (wres['texts'].get('sqlite'), wres['ids']))
-        if key in known_open_keys():
-            ctx.oracle_fail(key, text, {'tree': to_json(w), 'ser': ser(w)})
-        else:
-            ctx.note('FINDING (not listed in known_findings.json, reported as a note): %s [%s]' % (text, key))
     # directed probe of the documented limit of the fragment (a note, not a verdict): a boolean whose text is
     # `NOT …` as the LEFT operand of an IN-subquery is not parenthesised by INSubquery.__sqlrepr__
     w = ('insub', ('b2i', ('NOT', ('cmp', 'eq', ('c', 0), ('k', 1)))), 0)
@@ -1140,16 +1140,6 @@ def run(ctx):
     ctx.note('outside the well-typed fragment (INSubquery / LIKE whose left operand renders starting with "(" or as NOT …) '
              'the renderer does not parenthesise; not part of the theorem (typing hypothesis)')
     ctx.note('`x IN ()` is what IN(x, []) renders; false on SQLite (executed), a syntax error on MySQL/PostgreSQL (not executable here)')
-
-
-def known_open_keys():
-    import json
-    import os
-    path = os.path.join(os.path.dirname(os.path.dirname(os.path.abspath(__file__))), 'known_findings.json')
-    try:
-        return {k['key'] for k in json.load(open(path))['findings'] if k.get('property') == PROP and k.get('status') == 'open'}
-    except Exception:
-        return set()
 
 
 def to_json(t):
